@@ -886,12 +886,9 @@ class X12ContextReader(object):
                     if vriic in ('004010X094', '004010X094A1'):
                         tspc = seg.get_value('BHT02')
                         map_file_new = self.map_index_if.get_filename(icvn, vriic, fic, tspc)
-                        if self.map_file != map_file_new:
+                        # (a BHT02 that selects no map is a bad value of this element, not a missing map)
+                        if map_file_new is not None and self.map_file != map_file_new:
                             self.map_file = map_file_new
-                            if self.map_file is None:
-                                err_str = "Map not found.  icvn=%s, fic=%s, vriic=%s, tspc=%s" % \
-                                    (icvn, fic, vriic, tspc)
-                                raise pyx12.errors.EngineError(err_str)
                             cur_map = map_if.load_map_file(self.map_file, self.param, self.map_path)
                             if cur_map.id.startswith('837'):
                                 self.src.check_837_lx = True
